@@ -483,6 +483,165 @@ theorem step_hinv (c : Cfg) (s s' : St) (op : Op) (d t : Nat) (hss : c.singleSou
               · simp_all [Ne.symm h1, Ne.symm h2]
       · simp at h
     · simp at h
+  | manualLeft d' t' =>
+    simp only [step] at h
+    split at h
+    · rename_i hg; guards hg
+      cases h
+      refine ⟨by simp [lh], by simp [li], lp, by simp [lc], lf, ?_⟩
+      simp only [firing, St.ph, St.cu, St.incOf, getD_setAt, getD_bump] at heq hg ⊢
+      by_cases h1 : t' = t
+      · subst h1
+        by_cases h2 : d' = d
+        · subst h2; simp_all <;> omega
+        · simp_all [Ne.symm h2] <;> omega
+      · by_cases h2 : d' = d
+        · subst h2; simp_all [Ne.symm h1]
+        · simp_all [Ne.symm h1, Ne.symm h2]
+    · simp at h
+  | confirmManual d' t' =>
+    simp only [step, finishEject] at h
+    split at h
+    · rename_i hg; guards hg
+      have h1 : t' ≠ t := by rintro rfl; simp_all
+      cases h
+      refine ⟨by simp [lh], by simp [li], by simp [lp], by simp [lc], by simp [lf], ?_⟩
+      simp only [firing, St.ph, St.cu, St.incOf, getD_setAt, getD_bump] at heq hg ⊢
+      by_cases h2 : d' = d
+      · subst h2; simp_all [Ne.symm h1]
+      · simp_all [Ne.symm h1, Ne.symm h2]
+    · simp at h
+  | manualTimeout d' =>
+    simp only [step] at h
+    split at h
+    · rename_i hg; guards hg
+      cases h
+      refine ⟨lh, li, by simp [lp], lc, lf, ?_⟩
+      simp only [firing, St.ph, St.cu, St.incOf, getD_setAt] at heq hg ⊢
+      by_cases h2 : d' = d
+      · subst h2; simp_all
+      · simp_all [Ne.symm h2]
+    · simp at h
+  | manualReturn d' =>
+    simp only [step] at h
+    split at h
+    · rename_i t' hcu
+      split at h
+      · rename_i hg; guards hg
+        have hcont := hg.1.2
+        cases h
+        refine ⟨by simp [lh], by simp [li], lp, lc, by simp [lf], ?_⟩
+        have hlen := length_erase_of_contains _ _ hcont
+        simp only [firing, St.ph, St.cu, St.incOf, getD_setAt, getD_bump] at heq hg hcu hlen ⊢
+        by_cases h1 : t' = t
+        · subst h1
+          by_cases h2 : d' = d
+          · subst h2; simp_all <;> omega
+          · simp_all [Ne.symm h2] <;> omega
+        · by_cases h2 : d' = d
+          · subst h2; simp_all [Ne.symm h1]
+          · simp_all [Ne.symm h1, Ne.symm h2]
+      · simp at h
+    · simp at h
+  | extConfirm d' t' =>
+    simp only [step, finishEject] at h
+    split at h
+    · rename_i hg; guards hg
+      split at h
+      · rename_i hpft
+        have h1 : t' ≠ t := by rintro rfl; simp_all
+        cases h
+        refine ⟨by simp [lh], li, by simp [lp], by simp [lc], by simp [lf], ?_⟩
+        simp only [firing, St.ph, St.cu, St.incOf, getD_setAt, getD_bump] at heq hg ⊢
+        by_cases h2 : d' = d
+        · subst h2; simp_all [Ne.symm h1]
+        · simp_all [Ne.symm h1, Ne.symm h2]
+      · cases h
+        refine ⟨lh, li, by simp [lp], by simp [lc], by simp [lf], ?_⟩
+        simp only [firing, St.ph, St.cu, St.incOf, getD_setAt] at heq hg ⊢
+        by_cases h2 : d' = d
+        · subst h2
+          rcases hg.1.1.1.1.2 with hp | hp <;> simp_all
+        · simp_all [Ne.symm h2]
+    · simp at h
+  | pfArrivedStale t' src =>
+    simp only [step] at h
+    split at h
+    · rename_i hg; guards hg
+      have h1 : t' ≠ t := by rintro rfl; simp_all
+      cases h
+      refine ⟨lh, by simp [li], lp, lc, lf, ?_⟩
+      simp only [firing, St.ph, St.cu, St.incOf, getD_setAt] at heq hg ⊢
+      simp_all [Ne.symm h1]
+    · simp at h
+  | pfArrivedFrom t' src =>
+    simp only [step] at h
+    split at h
+    · rename_i hg; guards hg
+      have h1 : t' ≠ t := by rintro rfl; simp_all
+      cases h
+      refine ⟨lh, by simp [li], lp, lc, lf, ?_⟩
+      simp only [firing, St.ph, St.cu, St.incOf, getD_setAt] at heq hg ⊢
+      simp_all [Ne.symm h1]
+    · simp at h
+  | skipStart d' t' =>
+    simp only [step] at h
+    split at h
+    · rename_i hg; guards hg
+      cases h
+      refine ⟨by simp [lh], by simp [li], lp, lc, lf, ?_⟩
+      simp only [firing, St.ph, St.cu, St.incOf, getD_setAt, getD_bump] at heq hg ⊢
+      by_cases h1 : t' = t
+      · subst h1; simp_all <;> omega
+      · simp_all [Ne.symm h1]
+    · simp at h
+  | skipConfirm d' t' =>
+    simp only [step] at h
+    split at h
+    · rename_i src rest hinc
+      split at h
+      · rename_i hg; guards hg
+        have h1 : t' ≠ t := by rintro rfl; simp_all
+        cases h
+        refine ⟨by simp [lh], by simp [li], by simp [lp], by simp [lc], lf, ?_⟩
+        simp only [firing, St.ph, St.cu, St.incOf, getD_setAt, getD_bump] at heq hg hinc ⊢
+        by_cases h3 : d' = t
+        · subst h3
+          simp_all [Ne.symm h1, Ne.symm hne, hne] <;> omega
+        · by_cases h2 : d' = d
+          · subst h2; simp_all [Ne.symm h1, Ne.symm h3]
+          · simp_all [Ne.symm h1, Ne.symm h2, Ne.symm h3]
+      · simp at h
+    · simp at h
+  | skipFail d' t' =>
+    simp only [step] at h
+    split at h
+    · rename_i hg; guards hg
+      have hcont := hg.2
+      cases h
+      refine ⟨by simp [lh], by simp [li], lp, lc, lf, ?_⟩
+      have hlen := length_erase_of_contains _ _ hcont
+      simp only [firing, St.ph, St.cu, St.incOf, getD_setAt, getD_bump] at heq hg hlen ⊢
+      by_cases h1 : t' = t
+      · subst h1; simp_all <;> omega
+      · simp_all [Ne.symm h1]
+    · simp at h
+  | skipConfirmIdle d' t' =>
+    simp only [step] at h
+    split at h
+    · rename_i src rest hinc
+      split at h
+      · rename_i hg; guards hg
+        have h1 : t' ≠ t := by rintro rfl; simp_all
+        cases h
+        refine ⟨by simp [lh], by simp [li], lp, lc, lf, ?_⟩
+        simp only [firing, St.ph, St.cu, St.incOf, getD_setAt, getD_bump] at heq hg hinc ⊢
+        by_cases h3 : d' = t
+        · subst h3
+          simp_all [Ne.symm h1, Ne.symm hne, hne] <;> omega
+        · simp_all [Ne.symm h1, Ne.symm h3]
+      · simp at h
+    · simp at h
 
 theorem getD_replicate' {α : Type} (n i : Nat) (v : α) : (List.replicate n v).getD i v = v := by
   induction n generalizing i with
